@@ -3,6 +3,7 @@ package main
 import (
 	"fmt"
 	"sort"
+	"strings"
 )
 
 func init() { register("DBGVM", "other", dbgVM); register("DBGEM", "other", dbgEM) }
@@ -66,6 +67,37 @@ func dbgVM(c *Ctx, r *Report) {
 					fmt.Printf("      %s %s val=%s\n", e.Kind, e.Detail, e.Val)
 				}
 			}
+		}
+	}
+	r.ok("dbg", "x", "")
+}
+
+func init() { register("DBGARM", "other", dbgArm) }
+
+func dbgArm(c *Ctx, r *Report) {
+	m, _ := c.vmModel()
+	for _, n := range []string{"opDEFBLOCK", "opENDBLOCK", "opGETFIELD"} {
+		a := m.Arms[n]
+		for i, p := range a.Paths {
+			fmt.Printf("%s path %d abort=%v\n", n, i, p.Abort)
+			for _, e := range p.Events {
+				fmt.Printf("      %s %s val=%s paths=%v\n", e.Kind, e.Detail, e.Val, e.Paths)
+			}
+		}
+	}
+	a := m.Arms["opBIND"]
+	seen := map[string]bool{}
+	for _, p := range a.Paths {
+		var ss []string
+		for _, e := range p.Events {
+			if e.Kind == "store" || (e.Kind == "if" && !strings.HasPrefix(e.Detail, "?")) {
+				ss = append(ss, e.Kind+" "+e.Detail+" "+e.Val.String())
+			}
+		}
+		k := fmt.Sprint(p.Abort, ss)
+		if !seen[k] && len(seen) < 40 {
+			seen[k] = true
+			fmt.Println("BIND", k)
 		}
 	}
 	r.ok("dbg", "x", "")
